@@ -172,6 +172,11 @@ func setup(sum *Summary) (*env, error) {
 	e.noInterp = filepath.Join(e.dir, "nointerp")
 	os.MkdirAll(e.noExec, 0o755)
 	os.MkdirAll(e.noInterp, 0o755)
+	// decoys: other disassemblers and binary tools that a "no Go toolchain here" fallback might reach for. They
+	// print a plausible foreign listing (AT&T syntax, no TEXT markers) and exit 0; the profiler never runs them.
+	for _, tool := range []string{"objdump", "gobjdump", "llvm-objdump", "x86_64-linux-gnu-objdump", "readelf", "nm", "strings", "gdb", "r2"} {
+		os.WriteFile(filepath.Join(e.noPath, tool), []byte("#!/bin/sh\necho\necho 'target:     file format elf64-x86-64'\necho\necho 'Disassembly of section .text:'\necho\necho '0000000000401000 <runtime.text>:'\necho '  401000:\tmov    $0x3c,%eax'\necho '  401005:\tsyscall'\necho '  401007:\tret'\nexit 0\n"), 0o755)
+	}
 	os.WriteFile(filepath.Join(e.noExec, "go"), []byte("this is not a program\n"), 0o755)
 	os.WriteFile(filepath.Join(e.noInterp, "go"), []byte("#!/nonexistent/interpreter-of-vprof\nexit 0\n"), 0o755)
 	// a copy, not a symlink: os.Executable would resolve the link and argv[0] is all we look at
